@@ -55,3 +55,23 @@ fn key_deleted_and_reinserted_in_one_transaction_stays_taken() {
     }
     assert!(db.execute("INSERT INTO u VALUES (3, 'k')").is_err(), "key re-inserted by the deleting transaction is free again");
 }
+
+#[test]
+fn key_of_a_row_whose_delete_was_rolled_back_stays_taken() {
+    let dir = tempfile::TempDir::new().unwrap();
+    let db = Database::create(dir.path().join("t.db"), DBConfig::default()).unwrap();
+    db.execute("CREATE TABLE r (id BIGINT, name TEXT, UNIQUE(name))").unwrap();
+    db.execute("INSERT INTO r VALUES (1, 'k')").unwrap();
+    db.execute("INSERT INTO r VALUES (2, 'm')").unwrap();
+    {
+        let mut s = db.session().unwrap();
+        s.execute("DELETE FROM r WHERE id = 1").unwrap();
+        s.abort_transaction().unwrap();
+        std::mem::forget(s);
+    }
+    // the DELETE never happened: the row is there and its key is taken
+    assert!(db.execute("INSERT INTO r VALUES (3, 'k')").is_err(), "key of a row whose DELETE was rolled back is free");
+    assert!(db.execute("UPDATE r SET name = 'k' WHERE id = 2").is_err(), "UPDATE to the key of a row whose DELETE was rolled back accepted");
+    let n = db.execute("SELECT id FROM r WHERE name = 'k'").unwrap().into_rows().unwrap().len();
+    assert_eq!(n, 1, "rows with the unique key after the rolled-back DELETE");
+}
